@@ -122,6 +122,29 @@ Theorem C17_copy_subdir_copied : forall proj root nd n,
 Proof. exact copy_subdir_copied_run. Qed.
 Print Assumptions C17_copy_subdir_copied.
 
+(* the copy_subdir list of *every* written page (index or not): a named directory into which no
+   page is written is completely present beside the page at the end (two pages of one directory
+   may name the same directory: the second copytree is refused, the content is there) *)
+Theorem C17_copy_subdir_every_page : forall root r n item es sub,
+  In n (res_nodes r) -> In item (n_copy n) ->
+  (forall m, In m (res_nodes r) -> n_loc m <> n_loc n ++ [item]) ->
+  dir_at (n_loc n) root = Some es -> find_entry item es = Some (Dir item sub) ->
+  forall p, In p (all_files (Dir item sub)) -> has (n_loc n ++ p) (writeout root r).
+Proof. exact copy_subdir_every_page. Qed.
+Print Assumptions C17_copy_subdir_every_page.
+
+(* Model against Spec: everything spec_copydirs demands (copy_subdir of every index.md, and of
+   every other page for directories without an index.md of their own; own metadata, else the
+   project list) is below <output>/page at the end *)
+Theorem C17_copy_subdirs_spec : forall proj es p,
+  wf_tree (Dir [] es) = true -> regular proj None (Dir [] es) = true ->
+  page_tree proj es <> RErr ->
+  In p (spec_copydirs proj [] (Dir [] es)) ->
+  exists o, file_at p (f_files (writeout es (page_tree proj es))) = Some o /\
+            (o = Copy p \/ exists src, o = Page src).
+Proof. exact files_copydirs_spec. Qed.
+Print Assumptions C17_copy_subdirs_spec.
+
 (* what the code does: the list consulted is the one of the parent *node* (pc) *)
 Theorem C17_copy_subdir_skip_as_coded : forall proj pc loc d es nd n des,
   NoDup (map ename es) ->
